@@ -73,7 +73,8 @@ def build_binary():
 
 class Toplevel:
     """one scryer-prolog process under a pseudo-terminal"""
-    SYS_READ, SYS_EPOLL_WAIT = "0", "232"
+    SYS_READ = "0"
+    SYS_WAITS = {"232", "281", "441", "7", "271", "23", "270"}     # epoll_wait/pwait/pwait2, poll, ppoll, select, pselect6 (x86-64)
 
     def __init__(self, binary):
         self.pid, self.fd = pty.fork()
@@ -99,7 +100,7 @@ class Toplevel:
             return "dead"
         if not s:
             return "dead"
-        if s[0] == self.SYS_EPOLL_WAIT:
+        if s[0] in self.SYS_WAITS:
             return "key"
         if s[0] == self.SYS_READ and len(s) > 1 and int(s[1], 16) == 0:
             return "prompt"
